@@ -85,9 +85,17 @@ def sparsify(b, rng):
                 o["fault"] = dict(kind="read", at=o["fault"]["at"], r=rng.choice([0, rng.randrange(1, 40)]), frac=rng.choice([0, rng.randrange(1, 1000), rng.randrange(1, 1000), rng.randrange(1, 1000)]))
             if o.get("fault", {}).get("kind") == "stmt" and rng.random() < 0.15 and not any(e.get("t") == "v2" for e in o.get("evs", [])):
                 o["fault"] = dict(kind="kill", at=o["fault"]["at"])      # the process is killed inside that statement instead
+            # the disk fails under a running statement instead (harness/iofault: EIO from the r-th page read / write of the
+            # operation - an error out of rows.Next()/Scan() or out of the COMMIT, not out of Query/Exec)
+            if o.get("fault", {}).get("kind") == "read" and rng.random() < 0.35:
+                o["fault"] = dict(kind="ioread", at=0, r=rng.randrange(1, 9))
+            elif o.get("fault", {}).get("kind") == "stmt" and rng.random() < 0.12:
+                o["fault"] = dict(kind="iowrite", at=0, r=rng.choice([1, 1, 2, 3]))
         elif o["op"] == "reorg":
             if o.get("fault", {}).get("kind") == "stmt" and rng.random() < 0.3:
                 o["fault"] = dict(kind="commit", at=0)          # the reorg's COMMIT fails instead of one of its DELETEs
+            elif o.get("fault", {}).get("kind") == "stmt" and rng.random() < 0.2:
+                o["fault"] = dict(kind="iowrite", at=0, r=rng.choice([1, 1, 2]))   # ... or the disk, while the COMMIT writes
             f = o["from"]
             lo, hi = r(f - 1) + 1, r(f)
             o["from"] = rng.randint(lo, hi)
@@ -110,7 +118,7 @@ def fixture_behaviours(kind, rng):
         if not f.endswith(".json"):
             continue
         m = json.load(open(os.path.join(FIXTURES, f)))
-        if m["kind"] != kind:
+        if m.get("kind") != kind:
             continue
         base = dict(kind=kind, seed=m["seed"], fixture=os.path.join(FIXTURES, m["file"]), preload=len(m["ops"]))
         last = max(o["num"] for o in m["ops"])
@@ -226,7 +234,7 @@ def store_check(prop, model_cfgs, gen_cfgs, quick_n, thorough_n, kinds_note, inv
         nreorg = sum(1 for b in behs for o in b["ops"] if o["op"] == "reorg")
         # failing reads (SQLite authorizer): how many were really injected, and where
         rfired, rwhere = 0, {}
-        if any(o.get("fault", {}).get("kind") in ("read", "readinit") for b in behs for o in b["ops"]):
+        if any(o.get("fault", {}).get("kind") in ("read", "readinit", "ioread", "iowrite") for b in behs for o in b["ops"]):
             for line in open(tf):
                 if '"fired":true' in line.replace(" ", ""):
                     e = json.loads(line)
